@@ -68,7 +68,8 @@ pub(crate) struct FrequencyCounter {
 
 impl FrequencyCounter {
     pub(crate) fn new(counters: TotalCounters) -> FrequencyCounter {
-        let total_counters = Self::next_power_2(counters);
+        // two 4-bit counters share a byte: a row needs at least one byte, i.e. two counters
+        let total_counters = Self::next_power_2(counters).max(2);
         info!("Initializing FrequencyCounter with total counters {}", counters);
         FrequencyCounter {
             matrix: Self::matrix(total_counters),
